@@ -2,7 +2,7 @@
 defect7: an equality join as an operand of or_ is rejected (repaired), but not when it is wrapped in an and_ that is an
 operand of the or_: the JOIN restricts the whole statement, the other side of the disjunction is lost.
 
-Run:  cd /tmp/hunt2/C07 && PYTHONPATH=/tmp/hunt2/C07/src:/tmp/hunt2/C07 /venv/bin/python HUNT/defect7.py
+Run:  cd /tmp/hunt2/C07 && PYTHONPATH=/repo/src:/tmp/hunt2/C07 /venv/bin/python HUNT/defect7.py
 Exits non-zero when the translated statement and the in-memory evaluation disagree (the defect is present).
 """
 import importlib, os, sys, tempfile, warnings
